@@ -3,7 +3,10 @@
 // DESIGN.md Appendix C.  No code shared with the module under test.
 package reflabel
 
-import "strings"
+import (
+	"math/rand/v2"
+	"strings"
+)
 
 type Verdict int
 
@@ -133,6 +136,45 @@ func Encode(names []string) []byte {
 			}
 		}
 		out = append(out, 0)
+	}
+	return out
+}
+
+// Alphabet is the small alphabet whose strings exercise every branch of a label parser: root, short label
+// lengths, the largest label length, the reserved length classes, a letter, and pointer octets.
+var Alphabet = []byte{0x00, 0x01, 0x02, 0x03, 0x3f, 0x40, 'a', 0xC0, 0xC1}
+
+// Web builds a label stream dense in compression pointers: pointers to arbitrary offsets (backwards, forwards,
+// to themselves, into label contents) and labels whose contents are themselves pointer octets, so that a
+// pointer chain can lead through places a linear scan has already walked over as label content.
+func Web(r *rand.Rand) []byte {
+	n := 2 + r.IntN(30)
+	var out []byte
+	ptr := func() (byte, byte) {
+		off := r.IntN(n + 3)
+		return 0xC0 | byte(off>>8), byte(off)
+	}
+	for len(out) < n {
+		switch r.IntN(7) {
+		case 0:
+			out = append(out, 0)
+		case 1, 2:
+			a, b := ptr()
+			out = append(out, a, b)
+		case 3, 4: // a label made of pointer octets
+			l := 2 * (1 + r.IntN(3))
+			out = append(out, byte(l))
+			for i := 0; i < l; i += 2 {
+				a, b := ptr()
+				out = append(out, a, b)
+			}
+		default:
+			l := 1 + r.IntN(4)
+			out = append(out, byte(l))
+			for i := 0; i < l; i++ {
+				out = append(out, byte('a'+r.IntN(3)))
+			}
+		}
 	}
 	return out
 }
